@@ -23,8 +23,8 @@ Opt-in features (not in DEFAULT_FEATURES; without them generation is unchanged):
               ['anon', kw, fields]; field name '' = unnamed member (C11), else a
               named member of anonymous type
   'anon_td'   'typedef struct {...} T;' (struct decl with 'tag': None, 'tdname': T;
-              referenced as ['td', T]) and 'typedef enum {...} T;' (enum decl with
-              'tag': None, 'tdname': T)
+              referenced as ['td', T]) and 'typedef enum [tag] {...} T;' (enum decl with
+              'tag': None or a tag, 'tdname': T)
   'file'      'FILE' as a pointee (['prim', 'FILE']; the C source then needs <stdio.h>:
               c_source(..., stdio=True))
   'gvar_any'  global variables of typedef / aggregate / enum type ('init': None)
@@ -222,9 +222,13 @@ def specs(draw, features=DEFAULT_FEATURES, min_decls=2, max_decls=10):
             if 'anon_td' in feats and draw(st.integers(0, 3)) == 0:
                 # typedef enum { ... } T;
                 tdname = sc.fresh('T')
-                decls.append({'k': 'enum', 'tag': None, 'items': items, 'tdname': tdname})
+                keep_tag = draw(st.integers(0, 2)) == 0     # typedef enum tag { ... } T;
+                decls.append({'k': 'enum', 'tag': tag if keep_tag else None, 'items': items, 'tdname': tdname})
                 sc.complete.append(['td', tdname])
                 sc.scalars.append(['td', tdname])
+                if keep_tag:
+                    sc.complete.append(['enum', tag])
+                    sc.scalars.append(['enum', tag])
                 continue
             decls.append({'k': 'enum', 'tag': tag, 'items': items})
             sc.complete.append(['enum', tag])
